@@ -808,6 +808,9 @@ func (ctx *Context) evaluate() {
 					val = stack[e.top-num+index]
 				}
 				outStr += val.ToString()
+				if !ctx.chargeStringLength(len(outStr)) {
+					return
+				}
 			}
 
 			e.top -= num
